@@ -348,3 +348,45 @@ def enc_items(num, table, lalr, start_production=1):
         ts = sorted(num.term(t) for t in f if t is not EMPTY)
         out += [1 if EMPTY in f else 0, len(ts)] + ts
     return out
+
+
+def glr_alt_set(num, forest):
+    """Packed alternatives of an implementation forest in the vocabulary of the GLR driver model:
+    ((symbol, start, end) of the Parent, production, (symbol, start, end) of the children)."""
+    out = set()
+    seen = set()
+    todo = [forest.result]
+
+    def key(par):
+        return (num.sym(par.head.state.symbol), par.start_position, par.end_position)
+    while todo:
+        par = todo.pop()
+        if id(par) in seen:
+            continue
+        seen.add(id(par))
+        for ps in par.possibilities:
+            if ps.is_nonterm():
+                out.add((key(par), ps.production.prod_id, tuple(key(c) for c in ps.children)))
+                todo.extend(ps.children)
+    return out
+
+
+def parse_glr_reply(line):
+    """Reply of the `glr` command: a set of alternatives as above, or 'syntax' | 'lexamb' | 'crash' | 'fuel'."""
+    xs = line.split()
+    if len(xs) < 2 or xs[0] != "glr":
+        return "bad"
+    if xs[1] != "forest":
+        return xs[1]
+    v = [int(x) for x in xs[2:]]
+    i = 0
+    out = set()
+    while i < len(v):
+        sym, s, e, p, n = v[i:i + 5]
+        i += 5
+        kids = []
+        for _ in range(n):
+            kids.append(tuple(v[i:i + 3]))
+            i += 3
+        out.add(((sym, s, e), p, tuple(kids)))
+    return out
